@@ -239,6 +239,7 @@ func pqOracle(line, out string) string {
 		pos, mark := 0, 0
 		markValid := true
 		undefined := false
+		var cands []int
 		for i, op := range ops {
 			f := strings.Split(op, ":")
 			switch f[0] {
@@ -246,28 +247,43 @@ func pqOracle(line, out string) string {
 				buf = append(buf, unhx(f[3])...)
 			case "b", "rd", "u":
 				n, _ := strconv.Atoi(f[1])
-				if undefined {
-					return "" // not judged
-				}
 				r := res(i)
+				if undefined {
+					// after a failed read that was not followed by a restore the property fixes no position;
+					// two are sensible — unchanged, or everything consumed (what the code does) — and the next
+					// successful read must continue from one of them: never from inside a later packet, and it
+					// must not fail when both have the bytes
+					enough := 0
+					for _, c := range cands {
+						if c+n <= len(buf) {
+							enough++
+							if readMatches(f[0], r, n, buf[c:c+n]) {
+								pos, undefined = c+n, false
+							}
+						}
+					}
+					if undefined {
+						if strings.HasPrefix(r, "short") {
+							if enough == len(cands) {
+								return "a read returns exactly the bytes enqueued, in order, across packet boundaries (not-enough-bytes although the bytes are there, after an earlier failed read)"
+							}
+							cands = append(cands, len(buf))
+							continue
+						}
+						return "a read returns exactly the bytes enqueued, in order, across packet boundaries (bytes enqueued after a failed read are skipped or repeated)"
+					}
+					continue
+				}
 				if pos+n <= len(buf) {
 					want := buf[pos : pos+n]
 					pos += n
-					switch f[0] {
-					case "b":
-						if r != "ok:"+hx(want) {
+					if !readMatches(f[0], r, n, want) {
+						switch f[0] {
+						case "b":
 							return "a read returns exactly the bytes enqueued, in order, across packet boundaries"
-						}
-					case "rd":
-						if r != fmt.Sprintf("ok:%d:%s", n, hx(want)) {
+						case "rd":
 							return "Read fills the caller's buffer with the bytes read"
-						}
-					case "u":
-						var v uint64
-						for k := n - 1; k >= 0; k-- {
-							v = v<<8 | uint64(want[k])
-						}
-						if r != fmt.Sprintf("ok:%d", v) {
+						default:
 							return "a typed read returns the little-endian value of the next bytes"
 						}
 					}
@@ -276,6 +292,7 @@ func pqOracle(line, out string) string {
 						return "a read beyond the available bytes reports not-enough-bytes"
 					}
 					undefined = true
+					cands = []int{pos, len(buf)}
 				}
 			case "m":
 				if undefined {
@@ -390,6 +407,15 @@ func genReader(rng *rand.Rand, nops int) string {
 	undefined := false
 	for len(ops) < nops+2 {
 		if undefined {
+			if rng.Intn(4) == 0 {
+				// carry on without restoring the position (the failed read has consumed everything): packets
+				// enqueued from here on must still come out from their first byte
+				pos, undefined = avail, false
+				n := 1 + rng.Intn(8)
+				ops = append(ops, fmt.Sprintf("a:0:%d:%s", n+8, hx(rndBytes(rng, n))))
+				avail += n
+				continue
+			}
 			if markValid && rng.Intn(4) != 0 {
 				ops = append(ops, "k")
 				pos = mark
@@ -593,4 +619,21 @@ func init() {
 		Rule:        "op sequences over the real tds.PacketQueue: reader discipline (flat-slice oracle), writer discipline (layout oracle), undisciplined ops (model correspondence only, incl. panics) and all sequences up to a fixed depth over a 13-op alphabet at packet size 10; non-trivial = at least two packets involved, or a short read, or a panic",
 		Assumptions: []string{"positions passed to SetPosition are non-negative", "packet sizes 9..65535"},
 	})
+}
+
+// readMatches: is r the answer of a successful read of kind b / rd / u that returned want?
+func readMatches(kind, r string, n int, want []byte) bool {
+	switch kind {
+	case "b":
+		return r == "ok:"+hx(want)
+	case "rd":
+		return r == fmt.Sprintf("ok:%d:%s", n, hx(want))
+	case "u":
+		var v uint64
+		for k := n - 1; k >= 0; k-- {
+			v = v<<8 | uint64(want[k])
+		}
+		return r == fmt.Sprintf("ok:%d", v)
+	}
+	return false
 }
